@@ -124,7 +124,7 @@ MkPair(n, s, e, inner) == <<n, s, e, inner>>
 IsTrivia(n) == n \in {"WHITESPACE", "COMMENT"}
 \* WHITESPACE and COMMENT bodies are matched atomically whatever their modifier says
 InnerAtom(n, mod, atom) ==
-  IF IsTrivia(n) /\ mod \in {"", "_"} THEN "A"
+  IF IsTrivia(n) /\ mod \in {"", "_", "!"} THEN "A"
   ELSE CASE mod = "@" -> "A" [] mod = "$" -> "C" [] mod = "!" -> "N" [] OTHER -> atom
 \* the atomicity under which the rule's OWN pair is decided ($ and ! switch first)
 OwnAtom(mod, atom) == CASE mod = "$" -> "C" [] mod = "!" -> "N" [] OTHER -> atom
